@@ -561,4 +561,19 @@ MUTATIONS += [
     dict(id="r13i-binomial-one-state-too-many", file="cirkit/templates/tensor_factorizations.py", old='            factor_dim_kwargs = {"total_count": dim - 1}', new='            factor_dim_kwargs = {"total_count": dim}', expect={"C12": ["R13i:"], "C20": ["R13i:"]}),
     dict(id="r13i-image-binomial-256", file="cirkit/templates/data_modalities.py", old='            input_kwargs = {"total_count": 255}', new='            input_kwargs = {"total_count": 256}', expect={"C12": ["R13i:cirkit.templates.data_modalities.image_data:states-agree"], "C20": ["R13i:"]}, allow_others=True),
     dict(id="r11n-lse-plain-log", file=SEMI, old="        return safelog(func_exp_xs) + reduced_max_xs", new="        return torch.log(func_exp_xs) + reduced_max_xs", expect={"C13": ["R11n:cirkit.backend.torch.semiring.LSESumSemiring.apply_reduce"]}),
+    # ---- wave-9 seeds as kept
+    dict(id="w9-c03h", patch="seeded/C03h/patch.diff", expect={'C03': ['R12b:']}, allow_others=True),
+    dict(id="w9-c04i", patch="seeded/C04i/patch.diff", expect={'C04': ['R2']}, allow_others=True),
+    dict(id="w9-c04j", patch="seeded/C04j/patch.diff", expect={'C04': ['L2:']}, allow_others=True),
+    dict(id="w9-c06i", patch="seeded/C06i/patch.diff", expect={'C06': ['R13e:']}, allow_others=True),
+    dict(id="w9-c07g", patch="seeded/C07g/patch.diff", expect={'C07': ['R2']}, allow_others=True),
+    dict(id="w9-c08g", patch="seeded/C08g/patch.diff", expect={'C08': ['R7v:']}, allow_others=True),
+    dict(id="w9-c08h", patch="seeded/C08h/patch.diff", expect={'C08': ['R14x:']}, allow_others=True),
+    dict(id="w9-c12g", patch="seeded/C12g/patch.diff", expect={'C12': ['R4a:'], 'C14': ['R4a:']}, allow_others=True),
+    dict(id="w9-c13g", patch="seeded/C13g/patch.diff", expect={'C13': ['R11c:'], 'C01': ['R11c:']}, allow_others=True),
+    dict(id="w9-c15g", patch="seeded/C15g/patch.diff", expect={'C15': ['R4u:']}, allow_others=True),
+    dict(id="w9-c15h", patch="seeded/C15h/patch.diff", expect={'C15': ['R14y:']}, allow_others=True),
+    dict(id="q-r11c-shared-shift-times-n", quiet=True, patch="seeded/C13g/patch.diff", edits=[(SEMI, "        return safelog(func_exp_xs) + max_x", "        return safelog(func_exp_xs) + len(xs) * max_x")], expect={}),
+    dict(id="q-r4a-scatter-index-expanded", quiet=True, patch="seeded/C12g/patch.diff", edits=[(TNODES, "        return weight.scatter(2, col_idx.unsqueeze(dim=0), x)", "        return weight.scatter(2, col_idx.unsqueeze(dim=0).expand(x.shape[0], -1, -1), x)")], expect={}),
+    dict(id="q-r14x-keyword-construction", quiet=True, file="cirkit/symbolic/circuit.py", old="        return StructuralProperties(\n            self.is_smooth,\n            self.is_decomposable,\n            self.is_structured_decomposable,\n            self.is_omni_compatible,\n        )", new="        return StructuralProperties(\n            decomposable=self.is_decomposable,\n            smooth=self.is_smooth,\n            structured_decomposable=self.is_structured_decomposable,\n            omni_compatible=self.is_omni_compatible,\n        )", expect={}),
 ]
